@@ -116,6 +116,12 @@ func (t *DestinationTask) Do(ctx context.Context, batch *Batch) error {
 			break
 		}
 	}
+	if ackCount < len(positions) {
+		// The loop above reads at most one ack response per record. A
+		// connector that answers with empty (or too small) responses must not
+		// leave unanswered records looking acknowledged.
+		return cerrors.Errorf("destination acknowledged only %d of %d records", ackCount, len(positions))
+	}
 
 	return nil
 }
